@@ -35,6 +35,8 @@ type c18Case struct {
 	ow      string
 	labels  map[string]bool
 	dstDeep bool
+	child   bool   // run the restore as an unprivileged child process
+	roDir   string // directory (relative to the sandbox root) made read-only (0555) before the run
 }
 
 var c18Names = []string{"a", "b", "c", "x"}
@@ -313,7 +315,54 @@ func c18GenDupLinkFamily(h *H) *c18Case {
 	return c
 }
 
+// c18GenUnremovable: the snapshot has a directory where the target holds a symlink to an outside
+// directory, and that symlink CANNOT be removed (its parent directory is 0555, the restore runs
+// as an unprivileged user). Nothing may then be created or changed behind the symlink.
+func c18GenUnremovable(h *H) *c18Case {
+	c := &c18Case{labels: map[string]bool{}, child: true}
+	c.lbl("family-unremovable-symlink")
+	c.lbl("nonroot")
+	c.lbl("pre-symlink-to-outside-dir")
+	a := h.Pick(c18Names)
+	leafs := []*vNode{{Name: h.Pick([]string{"f", "x", "c"}), Type: data.NodeTypeFile, Mode: 0644, Parts: [][]byte{[]byte("new-content")}}}
+	if h.Bool() {
+		leafs = append(leafs, &vNode{Name: "sub2", Type: data.NodeTypeDir, Mode: 0755,
+			Children: []*vNode{{Name: "g", Type: data.NodeTypeFile, Mode: 0600}}})
+	}
+	if h.Intn(3) == 0 {
+		leafs = append(leafs, &vNode{Name: "lnk", Type: data.NodeTypeSymlink, Target: "f"})
+	}
+	dirA := &vNode{Name: a, Type: data.NodeTypeDir, Mode: 0755, Children: leafs}
+	target := "../outside"
+	if h.Bool() {
+		// read-only parent one level down
+		pn := h.Pick([]string{"p", "q"})
+		c.tree = []*vNode{{Name: pn, Type: data.NodeTypeDir, Mode: 0755, Children: []*vNode{dirA}}}
+		c.pre = []c18Pre{{path: filepath.Join("target", pn, a), kind: "symlink", target: "../" + target}}
+		c.roDir = filepath.Join("target", pn)
+	} else {
+		// the target directory itself is read-only
+		c.tree = []*vNode{dirA}
+		c.pre = []c18Pre{{path: filepath.Join("target", a), kind: "symlink", target: target}}
+		c.roDir = "target"
+	}
+	if h.Intn(3) == 0 {
+		c.pre[0].target = "$ABS/outside/sub"
+	}
+	c.filter = "none"
+	c.del = h.Intn(3) == 0
+	if c.del {
+		c.lbl("delete")
+	}
+	c.ow = []string{"always", "if-changed", "never"}[h.Intn(3)]
+	c.lbl("ow-" + c.ow)
+	return c
+}
+
 func c18GenCase(h *H) *c18Case {
+	if vCanSetpriv() && h.Intn(15) == 0 {
+		return c18GenUnremovable(h)
+	}
 	switch h.Intn(14) {
 	case 0, 1:
 		return c18GenChain(h)
@@ -481,6 +530,9 @@ func c18FixTargets(nodes []*vNode, abs string) {
 }
 
 func streamC18(h *H) {
+	if vCanSetpriv() && os.Getenv("RESTIC_VERIF_TMP") != "" {
+		_ = os.Chmod(verifTmpRoot(), 0711) // user nobody must be able to reach the sandboxes
+	}
 	n := h.N(150, 3000)
 	repo, be := vNewRepo()
 	cli := NewCLI(be)
@@ -558,7 +610,23 @@ func streamC18(h *H) {
 			args = append(args, "--"+c.filter, p)
 		}
 		var r CmdResult
-		fin := vWithTimeout(60*time.Second, func(ctx context.Context) { r = cli.RunCtx(ctx, args...) })
+		var fin bool
+		if c.child {
+			// unprivileged run of the real binary on a copy of the repository
+			vChownR(root)
+			if c.roDir != "" {
+				_ = os.Chmod(filepath.Join(root, c.roDir), 0555)
+			}
+			repoDir := MkTemp("c18repo-")
+			_ = os.Chmod(repoDir, 0755)
+			vExportLocal(be, repoDir)
+			exit, out, hang := vChildRestic(repoDir, root, 240*time.Second, args...)
+			_ = os.RemoveAll(repoDir)
+			fin = !hang
+			r = CmdResult{Exit: exit, Stderr: out}
+		} else {
+			fin = vWithTimeout(60*time.Second, func(ctx context.Context) { r = cli.RunCtx(ctx, args...) })
+		}
 
 		afterOut := vDump(outside)
 		afterRoot, _ := readDirNames(root)
@@ -577,7 +645,11 @@ func streamC18(h *H) {
 		}
 		sort.Strings(lbls)
 		h.Rec("lbl", strings.Join(lbls, ","))
-		h.Rec("opt", c.ow, B(c.del), c.filter)
+		runMode := "inproc"
+		if c.child {
+			runMode = "child"
+		}
+		h.Rec("opt", c.ow, B(c.del), c.filter, runMode)
 		for _, p := range c.pats {
 			h.Rec("pat", HexS(p))
 		}
